@@ -245,6 +245,11 @@ func buildAcc(s accSpec) *vmcommon.OutputAccount {
 	if s.code == 1 {
 		o.Code, o.CodeMetadata, o.CodeDeployerAddress = []byte("x"), []byte{1, 0}, []byte("D")
 	}
+	if s.code == 2 {
+		// other code, other flags of the same length, another deployer (a deploy followed by an
+		// upgrade of the same address)
+		o.Code, o.CodeMetadata, o.CodeDeployerAddress = []byte("yy"), []byte{4, 2}, []byte("E")
+	}
 	ts := []vmcommon.OutputTransfer{
 		{Value: big.NewInt(1), GasLimit: 1, Data: []byte("t1")},
 		{Value: big.NewInt(2), GasLimit: 2, Data: []byte("t2")},
@@ -279,6 +284,20 @@ func accSpecs(withCode bool) []accSpec {
 									out = append(out, accSpec{addr, nonce, bal, delta, st, code, tr, gas})
 								}
 							}
+						}
+					}
+				}
+			}
+		}
+	}
+	// a second code / code-metadata / deployer value, over a sub-product of the other dimensions
+	if withCode {
+		for addr := 0; addr < 2; addr++ {
+			for bal := 0; bal < 2; bal++ {
+				for delta := 0; delta < 4; delta++ {
+					for st := 0; st < 4; st += 2 {
+						for tr := 0; tr < 4; tr += 3 {
+							out = append(out, accSpec{addr, 0, bal, delta, st, 2, tr, 0})
 						}
 					}
 				}
